@@ -50,6 +50,14 @@ def indicators(ctx, rid):
             if reads != {0, 1}:
                 ok = False
                 detail = "only component(s) %s of (unserved passengers, unserved seated) enter the value" % sorted(reads)
+        if ok:
+            # the cached figure enters the objective as it is: no division / multiplication / remainder on the way
+            scal = [d.instr for d in fd.slice(seed_locals=[0], control=False)["defs"] if d.instr is not None and d.instr.kind == "assign"
+                    and d.instr.rv_kind() == "binop" and d.instr.rv["op"].startswith(("Div", "Rem", "Mul", "Shr", "Shl"))]
+            if scal:
+                ok = False
+                detail = "the value is rescaled (%s at %s) before it is compared: differences below the scale are invisible to the search, which " \
+                         "then accepts candidates that are worse on this level" % (scal[0].rv["op"], scal[0].line())
         ctx.decide(o, ok, "reads %s only" % getter.split("::")[-1], detail.strip())
         # the name paired with the getter
         o, fdn = ctx.require_fn("%s.%s.name" % (rid, name), "T7", INDN(struct),
